@@ -36,7 +36,7 @@ func (c14) RequiredBuckets(tier string) []string {
 	for _, k := range c14Commands {
 		out = append(out, "cmd:"+k, "hit:"+k)
 	}
-	out = append(out, "shape:a,b,a,b", "aspect:command", "input:multi-MiB", "input:regular-file-stdin", "output:unwritable", "shape:a,a", "shape:a,a',a", "shape:-o", "shape:bad,bad", "aspect:option", "aspect:positional", "aspect:secondary-input", "aspect:primary-input", "aspect:format", "help-crosscheck")
+	out = append(out, "shape:a,b,a,b", "aspect:command", "input:multi-MiB", "input:regular-file-stdin", "output:unwritable", "environment:unusable-TMPDIR", "input:17-MiB", "shape:a,a", "shape:a,a',a", "shape:-o", "shape:bad,bad", "aspect:option", "aspect:positional", "aspect:secondary-input", "aspect:primary-input", "aspect:format", "help-crosscheck")
 	return out
 }
 func (c14) Findings() []fw.Finding { return nil }
@@ -50,13 +50,14 @@ type inv struct {
 	// stdinAt bytes into it (gts cmd < file); -1 (zero value + 1 below): a pipe.
 	stdinFile bool
 	stdinAt   int
+	env       []string // extra environment entries (override the driver's)
 }
 
 func (v inv) withOut(p string) inv { v.out = p; return v }
 
 func (v inv) key(inputs map[string][]byte) string {
 	h := sha1.New()
-	fmt.Fprintf(h, "%q|%s|%v|%d|", v.args, v.out, v.stdinFile, v.stdinAt)
+	fmt.Fprintf(h, "%q|%s|%v|%d|%q|", v.args, v.out, v.stdinFile, v.stdinAt, v.env)
 	h.Write(inputs[v.stdin])
 	var names []string
 	for n := range v.files {
@@ -78,6 +79,9 @@ func (v inv) String() string {
 	s += " <" + v.stdin
 	if v.stdinFile {
 		s += fmt.Sprintf(" (a regular file, read position %d)", v.stdinAt)
+	}
+	if len(v.env) > 0 {
+		s += fmt.Sprintf(" env %v", v.env)
 	}
 	for n, k := range v.files {
 		s += fmt.Sprintf(" [%s=%s]", n, k)
@@ -115,9 +119,9 @@ func (x *c14run) exec(env *cli.Env, v inv, nocache bool) outcome {
 	}
 	var r cli.Result
 	if v.stdinFile {
-		r = env.RunFile(args, x.inputs[v.stdin], v.stdinAt, nil, 60*time.Second)
+		r = env.RunFile(args, x.inputs[v.stdin], v.stdinAt, v.env, 120*time.Second)
 	} else {
-		r = env.Run(args, x.inputs[v.stdin], nil, 60*time.Second)
+		r = env.Run(args, x.inputs[v.stdin], v.env, 120*time.Second)
 	}
 	o := outcome{out: r.Stdout, exit: r.Exit}
 	if r.TimedOut {
@@ -425,6 +429,12 @@ func (x *c14run) loadInputs() error {
 		}
 	}
 	x.inputs["big.fasta"] = big.Bytes()
+	// 17 MiB: the big stream six and a half times over.
+	var huge bytes.Buffer
+	for huge.Len() < 17<<20 {
+		huge.Write(big.Bytes())
+	}
+	x.inputs["huge.fasta"] = huge.Bytes()
 	return nil
 }
 
@@ -631,6 +641,42 @@ func (m c14) Run(c *fw.Ctx) {
 			}
 		}
 	}
+	// a temporary directory that cannot be used (missing, or a regular file):
+	// what the command prints does not depend on the cache being usable.
+	{
+		doneTmp := map[string]bool{}
+		for _, p := range plans {
+			if doneTmp[p.name] || p.base.stdin != "phix.gb" || len(p.base.files) > 0 {
+				continue
+			}
+			doneTmp[p.name] = true
+			if !c.NextShared() {
+				continue
+			}
+			a := p.base
+			missing := a
+			missing.env = []string{"TMPDIR=" + filepath.Join(x.env.Root, "no-such-dir")}
+			notdir := a
+			notdir.env = []string{"TMPDIR=/dev/null"}
+			x.history(p.name, "a,a", "", "TMPDIR missing / not a directory / fine", []inv{missing, a, notdir, missing, a}, true)
+			c.Bucket("environment:unusable-TMPDIR")
+		}
+	}
+	// an input larger than any spool limit one might think of (17 MiB on stdin).
+	for _, name := range []string{"reverse", "clear"} {
+		for _, p := range plans {
+			if p.name != name || p.base.stdin != "phix.gb" {
+				continue
+			}
+			if c.NextShared() {
+				a := p.base
+				a.stdin = "huge.fasta"
+				x.history(p.name, "a,a", "primary-input", "17 MiB on stdin", []inv{a, a}, true)
+				c.Bucket("input:17-MiB")
+			}
+			break
+		}
+	}
 	// an output that cannot be written (-o /dev/full: every write fails): the
 	// run fails with the cache cold and with the cache warm alike.
 	if _, err := os.Stat("/dev/full"); err == nil {
@@ -672,7 +718,8 @@ func (m c14) Run(c *fw.Ctx) {
 	// an output of several MiB (many deflate blocks, many writes) is replayed whole.
 	doneBig := map[string]bool{}
 	for _, p := range plans {
-		if doneBig[p.name] || p.base.stdin != "phix.gb" || (p.name != "clear" && p.name != "reverse" && p.name != "complement" && p.name != "sort") {
+		if doneBig[p.name] || (p.base.stdin != "phix.gb" && p.base.stdin != "multi.gb") || len(p.base.files) > 0 ||
+			(p.name != "clear" && p.name != "reverse" && p.name != "complement" && p.name != "sort" && p.name != "join" && p.name != "pick" && p.name != "summary") {
 			continue
 		}
 		doneBig[p.name] = true
